@@ -17,6 +17,7 @@ package erpc
 import (
 	"context"
 	"fmt"
+	"net"
 	"reflect"
 	"sync"
 	"time"
@@ -745,6 +746,7 @@ type (
 		callCmdChan    chan<- CallCmd // Send itself to the public channel when call is complete.
 		doneChan       chan struct{}  // Strobes when call is complete.
 		inputBodyCodec byte
+		conn           net.Conn // the connection the call was written to (guarded by mu)
 	}
 )
 
